@@ -330,23 +330,31 @@ func (b *ReadWrite) AllKeysChan(ctx context.Context) (<-chan cid.Cid, error) {
 		return nil, errClosed
 	}
 
+	// Collect the keys while the lock is held: the sending goroutine outlives this call,
+	// and must not walk the index after the lock has been released.
+	var keys []cid.Cid
+	walkErr := b.idx.ForEachCid(func(c cid.Cid, _ uint64) error {
+		if !b.opts.BlockstoreUseWholeCIDs {
+			c = cid.NewCidV1(cid.Raw, c.Hash())
+		}
+		keys = append(keys, c)
+		return nil
+	})
+
 	out := make(chan cid.Cid)
 
 	go func() {
 		defer close(out)
-		err := b.idx.ForEachCid(func(c cid.Cid, _ uint64) error {
-			if !b.opts.BlockstoreUseWholeCIDs {
-				c = cid.NewCidV1(cid.Raw, c.Hash())
-			}
+		for _, c := range keys {
 			select {
 			case out <- c:
 			case <-ctx.Done():
-				return ctx.Err()
+				maybeReportError(ctx, ctx.Err())
+				return
 			}
-			return nil
-		})
-		if err != nil {
-			maybeReportError(ctx, err)
+		}
+		if walkErr != nil {
+			maybeReportError(ctx, walkErr)
 		}
 	}()
 
